@@ -582,7 +582,7 @@ package types
 //@    (is(t, BranchCaseType) ==> (forall k int :: 0 <= k && k < len(BranchCaseType(t).Branches) ==> kidModes(BranchCaseType(t).Branches[k].SessionType, BranchCaseType(t).Mode, D, V))) &&
 //@    (is(t, UpType) ==> base(UpType(t).From) && ge(UpType(t).To, UpType(t).From) && kidModes(UpType(t).Continuation, UpType(t).From, D, V)) &&
 //@    (is(t, DownType) ==> base(DownType(t).From) && ge(DownType(t).From, DownType(t).To) && kidModes(DownType(t).Continuation, DownType(t).From, D, V))
-//@ macro ready(t SessionType, D Set[string], V Arr[string]LabelledType) bool = t != nil && shapeOK(t) && labelsOK(t, D) && rmodes(t, D, V)
+//@ macro ready(t SessionType, D Set[string], V Arr[string]LabelledType) bool = t != nil && shapeOK(t) && labelsOK(t, D) && base(modeOf(t)) && rmodes(t, D, V)
 //@ macro readyEnv(D Set[string], V Arr[string]LabelledType) bool = forall n string :: D[n] ==> V[n].Mode != nil && ready(V[n].Type, D, V) && contractive(V[n].Type, V, emptyStrSet)
 
 // A mode that is set is never overwritten, and a ready type has all its modes set: readiness survives the filling
@@ -634,3 +634,22 @@ package types
 //@   ensures C07.fetchNone: !result1 ==> result0 == nil
 //@   loop 1 invariant forall j int :: 0 <= j && j <= idx ==> branches[j].Label != label
 //@   pure
+
+// ---- C09: a copy of a ready type is ready (and is a new tree: children are allocated before their parent)
+//@ macro sameTag(a Modality, b Modality) bool = tag(a) == tag(b)
+//@ macro copyOpts(as []Option, bs []Option) bool = len(as) == len(bs) && (forall k int :: 0 <= k && k < len(as) ==> as[k].Label == bs[k].Label && isCopy(as[k].SessionType, bs[k].SessionType))
+//@ spec isCopy(a SessionType, b SessionType) bool = a != nil && b != nil && tag(a) == tag(b) &&
+//@    (is(a, LabelType) ==> LabelType(a).Label == LabelType(b).Label && sameTag(LabelType(a).Mode, LabelType(b).Mode)) &&
+//@    (is(a, UnitType) ==> sameTag(UnitType(a).Mode, UnitType(b).Mode)) &&
+//@    (is(a, SendType) ==> sameTag(SendType(a).Mode, SendType(b).Mode) && isCopy(SendType(a).Left, SendType(b).Left) && isCopy(SendType(a).Right, SendType(b).Right)) &&
+//@    (is(a, ReceiveType) ==> sameTag(ReceiveType(a).Mode, ReceiveType(b).Mode) && isCopy(ReceiveType(a).Left, ReceiveType(b).Left) && isCopy(ReceiveType(a).Right, ReceiveType(b).Right)) &&
+//@    (is(a, SelectLabelType) ==> sameTag(SelectLabelType(a).Mode, SelectLabelType(b).Mode) && copyOpts(SelectLabelType(a).Branches, SelectLabelType(b).Branches)) &&
+//@    (is(a, BranchCaseType) ==> sameTag(BranchCaseType(a).Mode, BranchCaseType(b).Mode) && copyOpts(BranchCaseType(a).Branches, BranchCaseType(b).Branches)) &&
+//@    (is(a, UpType) ==> sameTag(UpType(a).From, UpType(b).From) && sameTag(UpType(a).To, UpType(b).To) && isCopy(UpType(a).Continuation, UpType(b).Continuation)) &&
+//@    (is(a, DownType) ==> sameTag(DownType(a).From, DownType(b).From) && sameTag(DownType(a).To, DownType(b).To) && isCopy(DownType(a).Continuation, DownType(b).Continuation))
+//@ lemma C09.copyReady: forall a SessionType, b SessionType, D Set[string], V Arr[string]LabelledType :: shapeOK(a) && isCopy(a, b) && labelsOK(a, D) && base(modeOf(a)) && rmodes(a, D, V) ==> labelsOK(b, D) && rmodes(b, D, V) && base(modeOf(b)) && tag(modeOf(b)) == tag(modeOf(a)) by induction on size(a)
+//@ contract CopyType
+//@   ensures[C09] C09.copyNil: (orig == nil) == (result == nil)
+//@   ensures[C09] C09.copyShape: orig != nil ==> shapeOK(result) && isCopy(orig, result)
+//@   loop[C09] 1 invariant len(branches) == len(p.Branches) && (forall k int :: 0 <= k && k < i ==> branches[k].Label == p.Branches[k].Label && branches[k].SessionType != nil && shapeOK(branches[k].SessionType) && isCopy(p.Branches[k].SessionType, branches[k].SessionType))
+//@   loop[C09] 2 invariant len(branches) == len(p.Branches) && (forall k int :: 0 <= k && k < i ==> branches[k].Label == p.Branches[k].Label && branches[k].SessionType != nil && shapeOK(branches[k].SessionType) && isCopy(p.Branches[k].SessionType, branches[k].SessionType))
